@@ -40,7 +40,9 @@ class Branch(Path, Generic[SWCTypeVar]):
         return self.attach.get_ndata(key)[self.idx]
 
     def get_compartments(self) -> Compartments[Compartment]:
-        return Compartments(self.Compartment(self, n.pid, n.id) for n in self[1:])
+        return Compartments(
+            self.Compartment(self, i, i + 1) for i in range(len(self) - 1)
+        )
 
     def get_segments(self) -> Compartments[Compartment]:
         return self.get_compartments()  # Alias
